@@ -373,13 +373,23 @@ def _validate_store(case):
     assert case.get("prior_lazy", False) in (True, False)
 
 
-def _twin_pairs(pairs):
-    """Indices of pairs that have an identical twin (same source spec and region
-    parameters) writing to a different target."""
+def _twin_pairs(pairs, twins=None):
+    """Indices of pairs that have an identical twin (same source spec - or, given the NumPy twins, the same
+    source CONTENT, dtype and chunking: bool sources built from different bases are both all-True - and the
+    same region parameters) writing to a different target."""
     out = set()
+
+    def same_src(i, j):
+        if util.canon(pairs[i]["src"]) == util.canon(pairs[j]["src"]):
+            return True
+        if twins is None:
+            return False
+        a, b = twins[i], twins[j]
+        return a.shape == b.shape and a.dtype == b.dtype and np.array_equal(a, b) and util.canon(pairs[i]["src"].get("chunks")) == util.canon(pairs[j]["src"].get("chunks")) and util.canon(pairs[i]["src"].get("ops")) == util.canon(pairs[j]["src"].get("ops"))
+
     for i in range(len(pairs)):
         for j in range(i + 1, len(pairs)):
-            if pairs[i]["target"] != pairs[j]["target"] and util.canon(pairs[i]["src"]) == util.canon(pairs[j]["src"]) and util.canon(pairs[i]["region"]) == util.canon(pairs[j]["region"]):
+            if pairs[i]["target"] != pairs[j]["target"] and same_src(i, j) and util.canon(pairs[i]["region"]) == util.canon(pairs[j]["region"]):
                 out.update((i, j))
     return out
 
@@ -460,7 +470,7 @@ def check_store(case):
         if why:
             return "rejected:" + why, [], info
 
-    twins_set = _twin_pairs(pairs)
+    twins_set = _twin_pairs(pairs, twins)
     rfacets = [_facet(p, shapes[i]) for i, p in enumerate(pairs)]
     # bucket facet of a pair (kept coarse, one symptom should not fan out into a dozen buckets):
     # an identical twin pair is its own root cause whatever the region looks like; otherwise
